@@ -1009,6 +1009,23 @@ func ruleCondParity() *Rule {
 							tests = append(tests, p.InstrPos(x.Instrs[len(x.Instrs)-1]))
 						}
 					}
+					// a test inside a nested loop: its Shutdown outcome stays in the (outer) loop, but counts if from there the
+					// Wait cannot be reached again without passing one of the tests that leave the loop
+					if len(cut) > 0 {
+						base := map[*ssa.BasicBlock]bool{}
+						for k := range cut {
+							base[k] = true
+						}
+						for _, x := range fn.Blocks {
+							if !inLoop(x) || base[x] {
+								continue
+							}
+							if exit := tbShutdownTest(x, state, shutdown); exit != nil && inLoop(exit) && x != b && !reachAssuming(exit, b, inLoop, base, state, shutdown) {
+								cut[x] = true
+								tests = append(tests, p.InstrPos(x.Instrs[len(x.Instrs)-1]))
+							}
+						}
+					}
 					switch {
 					case len(cut) == 0:
 						ob.Verdict, ob.Detail = Violated, "the loop around Wait contains no test of r.state against Shutdown whose Shutdown outcome leaves the loop: the goroutine cannot be stopped"
@@ -1180,4 +1197,32 @@ func ruleFutNonblock() *Rule {
 func tbIsFutureCh(v ssa.Value) bool {
 	f, _ := tbFieldLoad(v)
 	return f != nil && f.Name() == "responseCh"
+}
+
+// reachAssuming reports whether target is reachable from from inside the loop when the node is shut down: at a block
+// of base (a test of r.state against Shutdown that leaves the loop) only the Shutdown outcome is followed, i.e. the walk
+// leaves the loop there.
+func reachAssuming(from, target *ssa.BasicBlock, inLoop func(*ssa.BasicBlock) bool, base map[*ssa.BasicBlock]bool, state *types.Var, shutdown int64) bool {
+	seen := map[*ssa.BasicBlock]bool{}
+	work := []*ssa.BasicBlock{from}
+	for len(work) > 0 {
+		x := work[len(work)-1]
+		work = work[:len(work)-1]
+		if seen[x] || !inLoop(x) {
+			continue
+		}
+		if x == target {
+			return true
+		}
+		seen[x] = true
+		if base[x] {
+			continue // shut down: this test leaves the loop
+		}
+		if e := tbShutdownTest(x, state, shutdown); e != nil {
+			work = append(work, e) // another state test: its Shutdown outcome
+			continue
+		}
+		work = append(work, x.Succs...)
+	}
+	return false
 }
